@@ -45,6 +45,9 @@ def render(res, n):
     elif res == "macro_args_total":
         k = max(1, n // 100)
         src = h + ".macro mt(" + ", ".join("q%d" % i for i in range(k)) + ")\n.db q0\n.endm\nmt(" + ", ".join("1" * 98 for _ in range(k)) + ")\n"
+    elif res == "macro_call_commas":
+        # n empty arguments: params_ptr[256]
+        src = h + ".macro mcc(a)\n.db 1\n.endm\nmcc(" + "," * n + ")\n"
     elif res == "equ_text":
         src = h + "eq_name equ " + "1 + " * (n // 4) + "1\n.db 1\n"
     elif res == "define_text":
@@ -110,6 +113,12 @@ def render(res, n):
         src = h + (".define RA RA\n.dc32 RA\n" if n <= 1 else ".define RA RB\n.define RB RA\n.dc32 RA\n")
     elif res == "define_chain":
         src = h + "".join(".define D%d D%d\n" % (i, i + 1) for i in range(n)) + ".define D%d 5\n.dc32 D0\n" % n
+    elif res == "equ_name":
+        src = h + "n" * n + " equ " + "1" * 123 + "\n.db 1\n"
+    elif res == "define_name":
+        src = h + ".define " + "d" * n + " " + "1" * 123 + "\n.dc32 " + "d" * n + "\n"
+    elif res == "macro_name_value":
+        src = h + ".macro " + "m" * n + "\n.db " + ", ".join(["1"] * 40) + "\n.endm\n" + "m" * n + "\n"
     elif res == "prod_include_if":
         files["self.inc"] = ".if 1\n" * n + '.include "self.inc"\n' + ".endif\n" * n
         src = h + '.include "self.inc"\n'
@@ -164,8 +173,11 @@ def mutate(text, rnd):
     toks = re.findall(r"\s+|[A-Za-z_0-9.$#]+|.", text, re.S)
     if len(toks) < 4:
         return text
-    k = rnd.randrange(6)
+    k = rnd.randrange(8)
     i = rnd.randrange(len(toks))
+    if k >= 6:
+        # the file ends inside a statement, behind an opening parenthesis (no newline at the end)
+        return "".join(toks[:i]) + ("(5" if k == 6 else " (")
     if k == 0:
         del toks[i]
     elif k == 1:
@@ -256,6 +268,47 @@ def run(tier, seed):
         cid = "j%d" % len(jobs)
         meta[cid] = (kind, key, src if isinstance(src, str) else repr(src[:200]))
         jobs.append((exe, wd, cid, src, files or {}, (args or []) + (OPTS[len(jobs) % len(OPTS)] if rotate else []), to))
+    cpu_lim = [c for c in lim if c["res"].startswith("cpu_")]
+    lim = [c for c in lim if not c["res"].startswith("cpu_")]
+    if len(cpu_lim) < 10:
+        raise C.InfraError("no per-CPU chain cases")
+    from .. import codec as K
+    mnems = {}
+    for cpu, text in K.corpus({c["name"] for c in K.cpu_list(vdir)}):
+        if ":" not in text:
+            m0 = text.split()[0]
+            if m0 not in mnems.setdefault(cpu, []):
+                mnems[cpu].append(m0)
+    # CPUs without a comparison corpus: the mnemonics their decoder prints for byte patterns (release build)
+    rel = C.ensure_build("rel")
+    dcases = []
+    for cpuinfo in K.cpu_list(rel):
+        if cpuinfo["name"] not in mnems:
+            for pat in range(0, 65536, 97):
+                dcases.append(("%s.%04x" % (cpuinfo["name"], pat), "kind=dis cpu=%s addr=256" % cpuinfo["name"], "%04x%s" % (pat, K.fill_for(pat, cpuinfo["type"]))))
+    for o in C.conform_parallel(rel, "codec", dcases, rd, "mnem", 10, nproc=C.NCPU):
+        t = (o.get("text") or "").split()
+        if t and o.get("acc") and t[0] not in mnems.setdefault(o["cpu"], []):
+            mnems[o["cpu"]].append(t[0])
+    # some back ends handle single mnemonics on their own (pic18 tblrd, the vector unit's lq.xyz): quick takes the first
+    # mnemonic of the corpus and five drawn ones, thorough every mnemonic of the corpus
+    for ci, cpuinfo in enumerate(K.cpu_list(vdir)):
+        cpu = cpuinfo["name"]
+        ml = mnems.get(cpu, ["nop"])
+        pick = ml if tier == "thorough" else ml[:1] + rnd.sample(ml[1:], min(5, len(ml) - 1))
+        for mi, mn in enumerate(pick):
+          for k, c in enumerate(sorted(cpu_lim, key=lambda x: (x["res"], x["len"]))):
+            if c["len"] == 40 and (tier == "quick" or mi > 0):
+                continue
+            if mi > 0 and c["len"] == 3:
+                continue
+            n = c["len"]
+            body = {"cpu_suffix_chain": "  %s%s r1, r2\n" % (mn, ".s" * n),
+                    "cpu_symbol_chain": "  %s %s\n" % (mn, "*+" * n),
+                    "cpu_operand_list": "  %s %s\n" % (mn, ", ".join("r%d" % (i % 8) for i in range(n))),
+                    "cpu_open_paren_eof": "  %s r1, %s5" % (mn, "(" * min(n, 40)),
+                    "cpu_open_bracket_eof": "  %s r1, %s5" % (mn, "[" * min(n, 40))}[c["res"]]
+            add("limit", "%s:%s@%s%s" % (c["res"], "gt" if n > 16 else "le", cpu, "" if mi == 0 else ":" + mn), ".%s\n%s" % (cpu, body), to=20)
     for c in lim:
         if c["len"] > 70000 and c["res"] not in ("repeat_count", "resb", "data_fill"):
             continue
@@ -288,6 +341,12 @@ def run(tier, seed):
         f = samples[rnd.randrange(len(samples))]
         text = open(f, errors="replace").read()[:6000]
         add("mutate", "mutate:" + os.path.relpath(f, C.REPO), mutate(text, rnd), args=["-I", os.path.join(C.REPO, "include")])
+    # every sample program cut behind a comma (an operand is expected next), ending in `(5` without a newline
+    for f in samples:
+        text = open(f, errors="replace").read()[:20000]
+        cuts = [m.end() for m in re.finditer(r",[ \t]*", text)]
+        for c0 in (cuts if tier == "thorough" else rnd.sample(cuts, min(len(cuts), 6))):
+            add("mutate", "cut:" + os.path.relpath(f, C.REPO), text[:c0] + "(5", args=["-I", os.path.join(C.REPO, "include")])
     for i in range(200 if tier == "quick" else 3000):
         n = rnd.choice([1, 7, 64, 513, 2000])
         add("bytes", "bytes", bytes(rnd.getrandbits(8) for _ in range(n)))
